@@ -1,5 +1,6 @@
 import Oracle.Util
 import MobiusModel.News
+import MobiusModel.NewsDeploy
 /-!
   Oracle handlers for C18.  `c18run` executes a whole history on the News model
   (`Mobius.News.step` — the definitions the theorems are about — plus the thin handler layer of
@@ -14,6 +15,7 @@ import MobiusModel.News
     DA <path> <idfield>                   delete article (411)    -> done | silent | panic
     DI <path>                             delete item (380)       -> done | silent
     R                                     reload from the file    -> done | err
+    BOOT / RI                             first start of the real binary with -init / a later (re)start (`Mobius.News.start`)
     SV / RS                               the operator saves a copy of the file / puts the saved copy back (file only)
     GA <path> <idfield>  /  GA2 …         get article (400) from memory / from the file as a second store loads it
                                           -> art title poster date prev next parent first bodyLen bodySum | none | silent
@@ -24,6 +26,9 @@ namespace Oracle
 open Mobius Mobius.News
 
 def cdO : Codec Tree := ⟨id, some⟩
+
+/-- the embedded template `Categories: {}` -/
+def templateO : Tree := AMap.empty
 
 /-- body checksum printed instead of the (up to 64 KiB) body -/
 def cksum (b : Bytes) : Nat := b.foldl (fun h x => (h * 31 + x.toNat) % 4294967296) 7
@@ -44,80 +49,86 @@ def artStr : Option Art → String
 
 def diskTree (st : State Tree) : Tree := (cdO.deser st.disk).getD AMap.empty
 
-partial def c18Loop (st : State Tree) (saved : Tree) (acc : List String) : List String → List String
+partial def c18Loop (ini : Bool) (st : State Tree) (saved : Tree) (acc : List String) : List String → List String
   | [] => acc.reverse
   | "B" :: rest =>
     let (p, r1) := takePath rest
     match r1 with
-    | n :: r2 => let x := step cdO st (.newBundle p (hexb n)); c18Loop x.state saved (kindStr x :: acc) r2
+    | n :: r2 => let x := step cdO st (.newBundle p (hexb n)); c18Loop ini x.state saved (kindStr x :: acc) r2
     | [] => ("bad-token" :: acc).reverse
   | "C" :: rest =>
     let (p, r1) := takePath rest
     match r1 with
-    | n :: r2 => let x := step cdO st (.newCategory p (hexb n)); c18Loop x.state saved (kindStr x :: acc) r2
+    | n :: r2 => let x := step cdO st (.newCategory p (hexb n)); c18Loop ini x.state saved (kindStr x :: acc) r2
     | [] => ("bad-token" :: acc).reverse
   | "P" :: rest =>
     let (p, r1) := takePath rest
     match r1 with
     | idf :: ti :: po :: dt :: body :: r2 =>
-      if p = [] then c18Loop st saved ("silent" :: acc) r2 else
+      if p = [] then c18Loop ini st saved ("silent" :: acc) r2 else
       match decodeInt (hexb idf) with
       | .ok par =>
         let x := step cdO st (.post p par ⟨hexb ti, hexb po, hexb dt, 0, 0, 0, 0, hexb body⟩)
-        c18Loop x.state saved (kindStr x :: acc) r2
-      | _ => c18Loop st saved ("silent" :: acc) r2
+        c18Loop ini x.state saved (kindStr x :: acc) r2
+      | _ => c18Loop ini st saved ("silent" :: acc) r2
     | _ => ("bad-token" :: acc).reverse
   | "DA" :: rest =>
     let (p, r1) := takePath rest
     match r1 with
     | idf :: r2 =>
       match decodeInt (hexb idf) with
-      | .ok id => let x := step cdO st (.delArticle p id); c18Loop x.state saved (kindStr x :: acc) r2
-      | _ => c18Loop st saved ("silent" :: acc) r2
+      | .ok id => let x := step cdO st (.delArticle p id); c18Loop ini x.state saved (kindStr x :: acc) r2
+      | _ => c18Loop ini st saved ("silent" :: acc) r2
     | [] => ("bad-token" :: acc).reverse
   | "DI" :: rest =>
     let (p, r1) := takePath rest
-    if p = [] then c18Loop st saved ("silent" :: acc) r1 else
-    let x := step cdO st (.delItem p); c18Loop x.state saved (kindStr x :: acc) r1
-  | "SV" :: rest => c18Loop st (diskTree st) ("saved" :: acc) rest          -- an operator copies the file
-  | "RS" :: rest => c18Loop ⟨st.mem, cdO.ser saved⟩ saved ("restored" :: acc) rest   -- … and later puts the copy back
+    if p = [] then c18Loop ini st saved ("silent" :: acc) r1 else
+    let x := step cdO st (.delItem p); c18Loop ini x.state saved (kindStr x :: acc) r1
+  | "SV" :: rest => c18Loop ini st (diskTree st) ("saved" :: acc) rest          -- an operator copies the file
+  | "RS" :: rest => c18Loop ini ⟨st.mem, cdO.ser saved⟩ saved ("restored" :: acc) rest   -- … and later puts the copy back
+  | "BOOT" :: rest =>      -- first start of the binary with -init on a directory that holds nothing yet
+    let x := start cdO templateO true ⟨st, false⟩
+    c18Loop x.state.initialised x.state.st saved ((match x with | .ok _ => "done" | _ => "err") :: acc) rest
+  | "RI" :: rest =>        -- the binary is stopped and started again with -init (or without: the directory is initialised)
+    let x := start cdO templateO true ⟨st, ini⟩
+    c18Loop x.state.initialised x.state.st saved ((match x with | .ok _ => "done" | _ => "err") :: acc) rest
   | "R" :: rest =>
     let x := step cdO st .reload
-    c18Loop x.state saved ((match x with | .ok _ => "done" | _ => "err") :: acc) rest
+    c18Loop ini x.state saved ((match x with | .ok _ => "done" | _ => "err") :: acc) rest
   | "GA" :: rest =>
     let (p, r1) := takePath rest
     match r1 with
     | idf :: r2 =>
       match decodeInt (hexb idf) with
-      | .ok id => c18Loop st saved (artStr (getArticle st.mem p id) :: acc) r2
-      | _ => c18Loop st saved ("silent" :: acc) r2
+      | .ok id => c18Loop ini st saved (artStr (getArticle st.mem p id) :: acc) r2
+      | _ => c18Loop ini st saved ("silent" :: acc) r2
     | [] => ("bad-token" :: acc).reverse
   | "GA2" :: rest =>
     let (p, r1) := takePath rest
     match r1 with
     | idf :: r2 =>
       match decodeInt (hexb idf) with
-      | .ok id => c18Loop st saved (artStr (getArticle (diskTree st) p id) :: acc) r2
-      | _ => c18Loop st saved ("silent" :: acc) r2
+      | .ok id => c18Loop ini st saved (artStr (getArticle (diskTree st) p id) :: acc) r2
+      | _ => c18Loop ini st saved ("silent" :: acc) r2
     | [] => ("bad-token" :: acc).reverse
   | "LA" :: rest =>
     let (p, r1) := takePath rest
-    c18Loop st saved (toHex (listArticlesField st.mem p) :: acc) r1
+    c18Loop ini st saved (toHex (listArticlesField st.mem p) :: acc) r1
   | "LA2" :: rest =>
     let (p, r1) := takePath rest
-    c18Loop st saved (toHex (listArticlesField (diskTree st) p) :: acc) r1
+    c18Loop ini st saved (toHex (listArticlesField (diskTree st) p) :: acc) r1
   | "LC" :: rest =>
     let (p, r1) := takePath rest
     let fs := listCatsFields st.mem p
-    c18Loop st saved ((s!"cats {fs.length}" ++ String.join (fs.map fun f => " " ++ toHex f)) :: acc) r1
+    c18Loop ini st saved ((s!"cats {fs.length}" ++ String.join (fs.map fun f => " " ++ toHex f)) :: acc) r1
   | "LC2" :: rest =>
     let (p, r1) := takePath rest
     let fs := listCatsFields (diskTree st) p
-    c18Loop st saved ((s!"cats {fs.length}" ++ String.join (fs.map fun f => " " ++ toHex f)) :: acc) r1
+    c18Loop ini st saved ((s!"cats {fs.length}" ++ String.join (fs.map fun f => " " ++ toHex f)) :: acc) r1
   | t :: _ => (("bad-token " ++ t) :: acc).reverse
 
 def c18Handlers : List (String × Handler) := [
-  ("c18run", fun (a : List String) => " | ".intercalate (c18Loop ⟨AMap.empty, AMap.empty⟩ AMap.empty [] a)),
+  ("c18run", fun (a : List String) => " | ".intercalate (c18Loop true ⟨AMap.empty, AMap.empty⟩ AMap.empty [] a)),
   ("c18cksum", fun (a : List String) => match a with
     | [d] => toString (cksum (hexb d))
     | _ => "bad-op")
